@@ -19,6 +19,10 @@ SRC = "synapgrad/nn/utils/train.py"
 NAME = "synapgrad.nn.utils.train.Trainer."
 
 
+# objects the caller supplies: they may define __bool__ / __len__ as they like (a loader with no batches is falsy), so only identity tests against None are decided
+FOREIGN = {"Model", "Criterion", "Optimizer", "Evaluator", "Loader", "Callback", "Loss"}
+
+
 def base_world(evaluator):
     s = State()
     me, model, crit, opt = Obj("Trainer"), Obj("Model"), Obj("Criterion"), Obj("Optimizer")
@@ -183,6 +187,7 @@ def targets():
 
             def mk():
                 ex = Executor(havoc={"pkbar", "kbar"})
+                ex.foreign_classes = FOREIGN
                 common_models(ex)
                 return ex
             ts.append(Target(NAME + "__train[%s evaluator, %s]" % ("with" if evaluator else "without", "zero batches" if zero else "n >= 1 batches"), SRC, "Trainer.__train", setup, ens, executor=mk,
@@ -222,6 +227,7 @@ def targets():
 
             def mk():
                 ex = Executor(havoc={"pkbar"})
+                ex.foreign_classes = FOREIGN
                 common_models(ex)
                 return ex
             ts.append(Target(NAME + "__validate[%s evaluator, %s]" % ("with" if evaluator else "without", "zero batches" if zero else "n >= 1 batches"), SRC, "Trainer.__validate", setup, ens, executor=mk,
@@ -256,6 +262,7 @@ def targets():
 
         def mk():
             ex = Executor(havoc={"pkbar", "np", "print", "Exception"})
+            ex.foreign_classes = FOREIGN
             common_models(ex)
             return ex
         ts.append(Target(NAME + "test[%s]" % ("zero batches" if zero else "n >= 1 batches"), SRC, "Trainer.test", setup, ens, executor=mk, key={"zero_batches": zero}))
@@ -319,6 +326,7 @@ def targets():
 
         def mk():
             ex = Executor(havoc={"pkbar", "np"})
+            ex.foreign_classes = FOREIGN
             common_models(ex)
             ex.models["Trainer.__train"] = train_contract
             ex.models["Trainer.__validate"] = validate_contract
